@@ -3,6 +3,7 @@
 From Coq Require Import List NArith Bool.
 From Coq.Strings Require Import Byte.
 From Connect Require Import Bytes Generated Dispatch GoIO Envelope Compression.
+From Connect Require Plumbing.
 Import ListNotations.
 Local Open Scope N_scope.
 
@@ -119,3 +120,9 @@ Theorem client_rejects_unknown_encoding : forall registered enc,
   client_accepts registered enc = false.
 Proof. exact client_rejects_unknown. Qed.
 Print Assumptions client_rejects_unknown_encoding.
+
+(* every writer the code builds receives the configured compress-min-bytes threshold, compression pool, buffer pool and codec: extracted from every composite literal in the source by the translator on each run *)
+Theorem configuration_reaches_the_writers :
+  plumbing_envelope_writer_complete = true /\ plumbing_connect_unary_marshaler_complete = true.
+Proof. exact Plumbing.writers_receive_configuration. Qed.
+Print Assumptions configuration_reaches_the_writers.
